@@ -99,6 +99,36 @@ def tree_map(fn, tree, sort_dicts=True):
     return tree  # static leaf (int, str, key, ...)
 
 
+def tree_map_multi(fn, trees):
+    """tree_map over several trees of identical structure (dict keys are matched by key, sorted)."""
+    t0 = trees[0]
+    if isinstance(t0, Arr):
+        return fn(*trees)
+    if t0 is None:
+        return None
+    if isinstance(t0, (tuple, list)):
+        if any(len(t) != len(t0) for t in trees):
+            raise AbstractError("tree_map: tree structures differ")
+        out = [tree_map_multi(fn, [t[i] for t in trees]) for i in range(len(t0))]
+        return tuple(out) if isinstance(t0, tuple) else out
+    if isinstance(t0, dict):
+        ks = sorted(t0.keys())
+        for t in trees[1:]:
+            if sorted(t.keys()) != ks:
+                raise AbstractError("tree_map: dict keys differ: %s vs %s" % (ks, sorted(t.keys())))
+        return {k: tree_map_multi(fn, [t[k] for t in trees]) for k in ks}
+    if is_pytree_obj(t0):
+        flat = [t.tree_flatten() for t in trees]
+        for f in flat[1:]:
+            if f[1] != flat[0][1]:
+                raise AbstractError("tree_map: static (aux) data of the trees differ")
+        children = tree_map_multi(fn, [tuple(f[0]) for f in flat])
+        return t0.cls.interp.getattr(t0.cls, "tree_unflatten")(flat[0][1], children)
+    if isinstance(t0, (int, Fraction, float, bool)):
+        return fn(*trees)
+    raise Unsupported("tree_map over several trees of type %s" % type(t0).__name__)
+
+
 def tree_leaves(tree):
     out = []
     tree_map(lambda a: out.append(a) or a, tree)
@@ -131,6 +161,13 @@ def pytree_roundtrip(x):
     if is_pytree_obj(x) or isinstance(x, (dict, tuple, list)):
         return tree_map(lambda a: a, x)
     return x
+
+
+def _var(x, axis, keepdims):
+    a = as_arr(x)
+    m = A.reduce_("mean", a, axis, True)
+    d = a - m
+    return A.reduce_("mean", d * d, axis, keepdims)
 
 
 def make_shims(world):
@@ -451,6 +488,8 @@ def make_shims(world):
         any=red("any"),
         all=red("all"),
         cumsum=A.cumsum,
+        var=lambda x, axis=None, keepdims=False, **k: _var(x, axis, keepdims),
+        std=lambda x, axis=None, keepdims=False, **k: A.sqrt(_var(x, axis, keepdims)),
         abs=ew1("abs"),
         absolute=ew1("abs"),
         sign=ew1("sign"),
@@ -632,7 +671,7 @@ def make_shims(world):
 
     def tree_map_fn(f, tree, *rest, **kw):
         if rest:
-            raise Unsupported("tree_map over several trees")
+            return tree_map_multi(f, [tree] + list(rest))
         return tree_map(f, tree)
 
     tree_util = NS(
